@@ -6,6 +6,7 @@ import (
 	"io"
 	"strconv"
 	"strings"
+	"time"
 )
 
 type vconfig struct {
@@ -274,4 +275,56 @@ func verif_C12_regreet() {
 		}
 	}
 	verifAssert(reps[len(seq)+2].code == 250, "C12.regreet-command-mode")
+}
+
+// verif_C12_deadlines_stub: STARTTLS is offered, so the upgraded session has to
+// keep answering. Real time is outside the engine, but what a stale deadline
+// would do is visible without a clock: every configuration of ReadTimeout /
+// WriteTimeout (each set or not) arms deadlines for certain directions in the
+// plaintext phase; after STARTTLS - successful, or failed with the plaintext
+// session going on - exactly the same directions run under a deadline, no
+// more (a deadline nobody renews would cut the session off once it passes) and
+// no fewer.
+func verif_C12_deadlines_stub() {
+	be := &vbackend{}
+	s, lg := verifServer(be)
+	s.TLSConfig = &tls.Config{}
+	if nondetBool() {
+		s.ReadTimeout = time.Second
+	}
+	if nondetBool() {
+		s.WriteTimeout = time.Second
+	}
+	fail := nondetBool()
+	conv := "EHLO c\r\nNOOP\r\nMAIL FROM:<a@v>\r\nRSET\r\n"
+	vc := &vconn{in: []byte(conv + "STARTTLS\r\n"), final: io.EOF, tlsIn: []byte(conv), tlsFinal: io.EOF, tlsFail: fail}
+	if fail {
+		vc.in = append(vc.in, conv...)
+		// (the continuation arrives in a read of its own)
+		vc.cuts = []int{len(conv) + len("STARTTLS\r\n")}
+	}
+	mark := [4]int{}
+	vc.onRead = func(pos int) {
+		if pos == len(conv)+len("STARTTLS\r\n") && fail {
+			// the plaintext continuation after the failed handshake starts here
+			mark = [4]int{vc.plainRd, vc.plainRdArmed, vc.plainWr, vc.plainWrArmed}
+		}
+	}
+	conn := newConn(vc, s)
+	s.handleConn(conn)
+	verifObserve("c12dl", s.ReadTimeout != 0, s.WriteTimeout != 0, fail, vc.plainRd, vc.plainRdArmed, vc.plainWr, vc.plainWrArmed, vc.insideRd, vc.insideRdArmed, vc.insideWr, vc.insideWrArmed)
+	verifAssert(lg.lines == 0, "C12.deadlines-nothing-logged")
+	if !fail {
+		verifReach("C12.deadlines-upgraded")
+		verifAssert(vc.insideRd > 0 && vc.insideWr > 0 && vc.plainRd > 0 && vc.plainWr > 0, "C12.deadlines-both-phases-ran")
+		verifAssert((vc.plainRdArmed > 0) == (vc.insideRdArmed > 0), "C12.deadlines-same-read-discipline-inside-tls")
+		verifAssert((vc.plainWrArmed > 0) == (vc.insideWrArmed > 0), "C12.deadlines-same-write-discipline-inside-tls")
+	} else {
+		verifReach("C12.deadlines-handshake-failed")
+		// before / after the failed handshake
+		rdB, rdBA, wrB, wrBA := mark[0], mark[1], mark[2], mark[3]
+		verifAssert(rdB > 0 && vc.plainRd > rdB && vc.plainWr > wrB, "C12.deadlines-both-phases-ran")
+		verifAssert((rdBA > 0) == (vc.plainRdArmed-rdBA > 0), "C12.deadlines-same-read-discipline-after-failed-handshake")
+		verifAssert((wrBA > 0) == (vc.plainWrArmed-wrBA > 0), "C12.deadlines-same-write-discipline-after-failed-handshake")
+	}
 }
